@@ -4519,7 +4519,7 @@ class Wallet(object):
         return self.send(to_list, input_arr, network=network, fee=fee, min_confirms=min_confirms, locktime=locktime,
                          broadcast=broadcast, replace_by_fee=replace_by_fee)
 
-    def wif(self, is_private=False, account_id=0):
+    def wif(self, is_private=False, account_id=None):
         """
         Return Wallet Import Format string for master private or public key which can be used to import key and
         recreate wallet in other software.
@@ -4542,7 +4542,7 @@ class Wallet(object):
         else:
             wiflist = []
             for cs in self.cosigner:
-                wiflist.append(cs.wif(is_private=is_private))
+                wiflist.append(cs.wif(is_private=is_private, account_id=account_id))
             return wiflist
 
     def public_master(self, account_id=None, name=None, as_private=False, witness_type=None, network=None):
